@@ -54,6 +54,11 @@ def build_harness():
 
 def lean_build(targets):
     with Lock("lake"):
+        # the permission rules are part of the system model: regenerate them from /repo's source before
+        # EVERY build, so that no check ever judges with rules translated from an older tree
+        t = sh(["python3", f"{VERIF}/translate/perm_rules.py"])
+        if t.returncode != 0:
+            raise BuildError("translator translate/perm_rules.py failed:\n" + t.stdout[-3000:])
         r = sh(["lake", "build"] + targets, cwd=LEAN)
         if r.returncode != 0:
             raise BuildError("lake build failed:\n" + "\n".join(
